@@ -811,12 +811,18 @@ func (p *parser) modItem() (*ModItem, error) {
 		p.next()
 		name += ".*"
 	}
+	// nested field path inside a by-value struct field:  T.f:g:h
+	sub := ""
+	for p.isOp(":") && p.toks[p.p+1].kind == tIdent && !clauseKeywords[p.toks[p.p+1].s] {
+		p.next()
+		sub += "." + p.next().s
+	}
 	i := strings.LastIndex(name, ".")
 	var mi *ModItem
 	if i < 0 {
 		mi = &ModItem{Kind: "gglobal", Path: name, Line: line}
 	} else {
-		mi = &ModItem{Kind: kind, Type: name[:i], Path: name[i+1:], Line: line}
+		mi = &ModItem{Kind: kind, Type: name[:i], Path: name[i+1:] + sub, Line: line}
 	}
 	if p.isKw("at") {
 		p.next()
